@@ -85,6 +85,9 @@ def _dec(t, s):
                 if k == '$srmi':   # Series on a MultiIndex: [list of label tuples (as lists), values]
                     import pandas as pd
                     return pd.Series(_dec(v[1], s), index=pd.MultiIndex.from_tuples([tuple(t_) for t_ in v[0]]))
+                if k == '$range':  # a pandas RangeIndex: [start, stop, step]
+                    import pandas as pd
+                    return pd.RangeIndex(v[0], v[1], v[2])
                 if k == '$sr':   # generic Series: [index values, values, dtype|None]
                     import pandas as pd
                     return pd.Series(_dec(v[1], s), index=_dec(v[0], s), dtype=v[2] if len(v) > 2 else None)
